@@ -27,8 +27,8 @@ for _pid, _t in {
   "C02": "Closure/scoping programs (nested functions to depth 3, captures of parameters, locals, loop items, catch variables, self and module names, closures called after the declaring call returned, interleaved writes) are executed by TLC on Lang.tla (store model: fresh location per executed declaration, one location per for item) and compared with the VM.",
   "C03": "Class programs (hierarchies to depth 3, every overriding pattern, init field sets incl. conditional assignment, invoke / get-then-call / bound methods / super / static / field-shadows-method / undeclared members, call sites visited by sequences of receiver classes, class factories, objects in fields) are executed by TLC on Lang.tla and compared with the VM.",
   "C04": "Exception programs (try placement in module/function/method/loop/callback with 0-3 parameters and locals, raise 0-2 calls deep, explicit/runtime/native errors, typed/untyped/multiple catch clauses, every way of leaving the try, state printed afterwards, a late raise) are executed by TLC on Lang.tla (nearest dynamically enclosing matching handler, handler deactivated on every exit) and compared with the VM.",
-  "C14": "The exhaustive operator table over the special numerals (0/-0/NaN/inf and all other atom kinds), random core programs, class and closure programs are executed by TLC on Lang.tla once; BOTH builds of the VM (tagged enum and --features nan_boxing) must reproduce the prediction, so any disagreement between the builds is a disagreement of one of them with the spec.",
-  "C18": "Call chains of depth <= 4 over functions, methods, initialisers, static methods and lambdas with a raise / runtime error / native error / exit(n) at each level, caught at each level (incl. non-matching handlers on the way, wrapping with inner errors) or not at all, printed in two line layouts: TLC computes on Lang.tla the printed lines, e.message / e.inner / e.backTrace contents, the traceback frames (innermost first) and the exit status; the VM's stdout, stderr traceback and status must match.",
+  "C14": "The exhaustive operator table over the special numerals (0/-0/NaN/inf and all other atom kinds), random core programs, class and closure programs, and programs that use special values (NaN, -0, 0, inf, -inf, nil, booleans, strings) as operands of == / !=, as list and tuple members for has / index and as map keys for set / get / has / remove / insert are executed by TLC on Lang.tla once; BOTH builds of the VM (tagged enum and --features nan_boxing) must reproduce the prediction, so any disagreement between the builds is a disagreement of one of them with the spec.",
+  "C18": "Call chains of depth <= 4 over functions, methods, initialisers, static methods and lambdas, optionally passing through the callback of a native that runs on its own call frame (each, reduce, all, any, sort, each over a lazy map) after another such native has run and returned, with a raise / runtime error / native error / exit(n) at each level, caught at each level (incl. non-matching handlers on the way, wrapping with inner errors) or not at all, printed in two line layouts: TLC computes on Lang.tla the printed lines, e.message / e.inner / e.backTrace contents, the traceback frames (innermost first) and the exit status; the VM's stdout, stderr traceback and status must match.",
   "C19": "Interactive sessions: the top-level statements of generated modules (core, class, closure and exception families) are entered one per prompt line, with lines that fail to compile and lines that raise inserted; TLC runs the same entries on Lang.tla's session semantics (an entry that raises is reported and the session continues with everything defined so far); the prompt's stdout, the sequence of reported error classes and the normal end of the session must match.",
   "C17": "Acyclic module graphs of up to 4 files plus main (every import form, multiplicity, order relative to the module's own definitions; exports of let/fn/class; private state observable only through exported functions; requests for private names, missing files and a module that does not compile) are executed by TLC on Lang.tla's module semantics (body runs once, before the importer continues; an import binds exactly the exported values); the VM run over in-memory files must print the same lines and end the same way.",
   "C10": "Histories of mutations (push, multi-push, insert, remove, pop, index assignment, clear, growth inside helper functions and methods, map set/remove, field writes) applied through randomly chosen aliases of 1-3 subjects (lists of 0-4 elements so that growth crosses the capacity, maps, instances) whose aliases live in variables, list / nested list / tuple / map elements, fields and closures, at module level or in a function's locals; interleaved with == / != between alias paths, map has/get/index/set keyed by the subject, list and tuple has/index, and prints through other aliases. TLC runs the same program on Lang.tla, where an object is a heap id that never changes.",
